@@ -111,7 +111,8 @@ func (f *FileOutputHandler) Load(
 	// If the local hash is the same as the cached one we don't need to
 	// load the file from the CAS
 	if err == nil && existingHash == output.GetFile().GetDigest().GetHash() {
-		return nil
+		// The bytes are already in place, the executable permission may not be (e.g. after a chmod -x)
+		return restoreExecutableBit(absOutputPath, output.GetFile().GetIsExecutable())
 	}
 
 	progress := tracker
@@ -166,4 +167,20 @@ func (f *FileOutputHandler) Load(
 	}
 
 	return nil
+}
+
+// restoreExecutableBit makes the executable permission of an existing file match the cached one
+func restoreExecutableBit(path string, isExecutable bool) error {
+	info, err := os.Stat(path)
+	if err != nil {
+		return err
+	}
+	if (info.Mode()&0111 != 0) == isExecutable {
+		return nil
+	}
+	mode := os.FileMode(0644)
+	if isExecutable {
+		mode = 0755
+	}
+	return os.Chmod(path, mode)
 }
